@@ -508,7 +508,15 @@ class AbsoluteFlow(BaseTransitionFlow):
 
     def stratify(self, strat: Stratification) -> List[BaseFlow]:
         new_flows = super().stratify(strat)
-        if len(new_flows) > 1.0:
+        # The base class already divides the weight among the strata when only the destination
+        # is stratified (conservation split); do not divide a second time in that case.
+        is_already_split = (
+            self.dest.has_name_in_list(strat.compartments)
+            and not self.source.has_name_in_list(strat.compartments)
+            and not strat.is_strain()
+            and not strat.get_flow_adjustment(self)
+        )
+        if len(new_flows) > 1.0 and not is_already_split:
             adj_factor = 1.0 / len(new_flows)
             for f in new_flows:
                 f.adjustments.append(Multiply(adj_factor))
